@@ -324,7 +324,7 @@ def run(ctx):
     ctx.require_regimes('limit-violated:c=1', 'limit-violated:0<c<1', 'limit-satisfied', 'n=1', 'n=4')
     sets = [Setup(ctx, rng, '2d'), Setup(ctx, rng, '3d')]
     vs = vectors(ctx)
-    reps = 1 if ctx.quick else 2
+    reps = 1 if ctx.quick else 4
     for v in vs:
         for st in sets:
             for _ in range(reps):
